@@ -583,6 +583,11 @@ func (f *Formatter) formatReturnStatement(stmt *ast.ReturnStatement) string {
 		if f.conf.ReturnStatementParenthesis && !f.isFunctionalSubroutine {
 			prefix = "("
 			suffix = ")"
+		} else if startsWithGroup(stmt.ReturnExpression) {
+			// "return ((a));", "return ((a) + b);" - without the outer parenthesis the
+			// inner one would be taken for it (and removed by the next formatting)
+			prefix = " ("
+			suffix = ")"
 		}
 		buf.WriteString(prefix)
 		buf.WriteString(f.formatExpression(stmt.ReturnExpression).String())
@@ -599,6 +604,19 @@ func (f *Formatter) formatReturnStatement(stmt *ast.ReturnStatement) string {
 	buf.WriteString(";")
 
 	return buf.String()
+}
+
+// startsWithGroup reports whether the first token of the expression is a left parenthesis
+func startsWithGroup(expr ast.Expression) bool {
+	switch t := expr.(type) {
+	case *ast.GroupedExpression:
+		return true
+	case *ast.InfixExpression:
+		return startsWithGroup(t.Left)
+	case *ast.PostfixExpression:
+		return startsWithGroup(t.Left)
+	}
+	return false
 }
 
 // Format synthetic statement
